@@ -75,6 +75,23 @@ fn bases(seed: u64, tier: Tier) -> Vec<Vec<Chunk>> {
             }
         }
     }
+    if tier == Tier::Thorough {
+        let mut k = 0usize;
+        for a in 0..kinds.len() {
+            for b in 0..kinds.len() {
+                for c in 0..kinds.len() {
+                    k += 1;
+                    if k % 11 != 0 {
+                        continue;
+                    }
+                    let cs = vec![kinds[a].clone(), kinds[b].clone(), kinds[c].clone()];
+                    if lzma2::write(&cs).ill.is_none() {
+                        v.push(cs);
+                    }
+                }
+            }
+        }
+    }
     v
 }
 
